@@ -158,6 +158,12 @@ def cli_case(ctx, k):
             argv.append("--match-read-wildcards")
         if not cfg["indels"]:
             argv.append("--no-indels")
+        if rng.random() < 0.3:
+            # an adapter file with parameters of its own in front: they hold for the file's adapters only
+            with open(os.path.join(d, "other.fasta"), "w") as f:
+                f.write(">f1\n" + M.rnd_seq(rng, 25, "ACGT") + "\n>f2\n" + M.rnd_seq(rng, 31, "ACGT") + "\n")
+            argv = [rng.choice(["-a", "-g"]), "file:other.fasta;" + rng.choice(["e=0.4;o=2", "e=0.45;noindels", "o=1;e=0.35;indels"])] + argv
+            ctx.count("cli_runs_after_parameterised_file")
         run = climon.run(d, argv + inputs, trace=False)
         ctx.count("cli_runs")
         if run.rc != 0:
@@ -178,6 +184,10 @@ def cli_case(ctx, k):
                     continue
                 read = reads[fastx.rid(col[0])]
                 err, r0, r1 = int(col[1]), int(col[2]), int(col[3])
+                if col[7] in ("f1", "f2"):
+                    ctx.count("rows_of_file_adapters_not_judged")
+                    ctx.case(None)
+                    continue
                 if col[7] != "main":
                     # a row of one of the other anchored adapters: judged with that adapter's sequence and tolerance
                     oseq, orate = others[col[7]]
